@@ -201,7 +201,9 @@ mutual
         some { stack := { isObj := true, body := B ++ mapBody ms, index := i, pending := none } :: fs, sink := sink }
     | [], B, i, fs, sink, _ => by simp [eventsMembers, run, mapBody]
     | (k, x) :: ms, B, i, fs, sink, h => by
-      have h' : scalarsOK x = true ∧ scalarsOKMembers ms = true := by simpa [scalarsOKMembers] using h
+      have h' : scalarsOK x = true ∧ scalarsOKMembers ms = true := by
+        have h0 : (Model.Bson.nameOK k = true ∧ scalarsOK x = true) ∧ scalarsOKMembers ms = true := by simpa [scalarsOKMembers] using h
+        exact ⟨h0.1.2, h0.2⟩
       have hv := run_value x { isObj := true, body := B, index := i, pending := some k }
         { isObj := true, body := B ++ typeCode x :: (k ++ [0]), index := i, pending := none } fs sink h'.1 (by simp [beforeValue])
       have ih := run_members ms (B ++ typeCode x :: (k ++ [0]) ++ value x) i fs sink h'.2
